@@ -3,12 +3,11 @@
 # it applies, compiles, keeps the 143 baseline tests passing, its demonstration FAILS with it and PASSES without it.
 set -u
 ID=$1
-SRC=/tmp/seed/out/$ID
-[ -d /verif/seeded/$ID ] && [ ! -d $SRC ] && SRC=/verif/seeded/$ID
+SRC=${SEED_ROOT:-/verif/seeded}/$ID
 PATCH=$SRC/patch.diff; [ -f $SRC/patch.rebased.diff ] && PATCH=$SRC/patch.rebased.diff
 DEMO=$(ls $SRC | grep -E "demo.*\.go$" | head -1)
-TGT=$(grep -ohE "(cmd/keymasterd|lib/[a-z/_0-9]+|keymasterd/[a-z]+|eventmon/[a-z]+)/[A-Za-z0-9_]*_test\.go" $SRC/notes.md 2>/dev/null | head -1)
-[ -z "$TGT" ] && [ -f $SRC/meta.json ] && TGT=$(python3 -c "import json;print(json.load(open('$SRC/meta.json'))['demo_target'])")
+TGT=""; [ -f $SRC/meta.json ] && TGT=$(python3 -c "import json;print(json.load(open('$SRC/meta.json'))['demo_target'])")
+[ -z "$TGT" ] && TGT=$(grep -ohE "(cmd/keymasterd|lib/[a-z/_0-9]+|keymasterd/[a-z]+|eventmon/[a-z]+)/[A-Za-z0-9_]*_test\.go" $SRC/notes.md 2>/dev/null | head -1)
 WT=/tmp/seedchk-$ID
 git -C /repo worktree remove --force $WT 2>/dev/null; rm -rf $WT
 git -C /repo worktree add -q --detach $WT HEAD || exit 2
